@@ -247,6 +247,11 @@ SHAPES = [  # one event / one state / both: the shapes that used to crash
     dict(states=["X"], params=["beta", "gamma"], derived=[], decl="list", odes=[],
          events=[dict(rate="beta", kind="const", trans=[dict(ty="B", o=None, d=0, mag="2")]),
                  dict(rate="gamma*X", kind="linear", trans=[dict(ty="D", o=0, d=None, mag="1")])]),
+    # fixed step 0.25, leaps that are rejected at the boundary and long first-reaction waits in between: recorded times increase
+    *[dict(states=["X"], params=["beta", "gamma"], derived=[], decl="list", odes=[], _x0=[4], _T=14.0, _tau_only=True, _seed=sd,
+           _theta=dict(beta=0.3, gamma=0.4),
+           events=[dict(rate="beta*X", kind="linear", trans=[dict(ty="D", o=0, d=None, mag="3")]),
+                   dict(rate="gamma", kind="const", trans=[dict(ty="B", o=None, d=0, mag="1")])]) for sd in (5, 6, 7, 8)],
     # non-integer jump sizes from an initial state given as integers (Python ints / an int64 array): the state is a float vector
     dict(states=["A", "B", "C"], params=["beta", "gamma"], derived=[], decl="list", odes=[], _x0=[40, 0, 0], _x0_int="list", _T=2.0,
          events=[dict(rate="beta*A/8", kind="linear", trans=[dict(ty="T", o=0, d=1, mag="2.5")]),
@@ -271,7 +276,7 @@ def drive(ck, pid, limits):
                 continue
             cases.append(dict(definition=dd, x0=d.get("_x0", [6] * len(d["states"])),
                               theta=d.get("_theta", {p: 0.75 for p in d["params"]}),
-                              exact=exact, pre_tau=(0.25 if d.get("_tau_only") else None), epsilon=0.03, seed=5, T=d.get("_T", 1.5),
+                              exact=exact, pre_tau=(0.25 if d.get("_tau_only") else None), epsilon=0.03, seed=d.get("_seed", 5), T=d.get("_T", 1.5),
                               x0_int=d.get("_x0_int")))
     cases += [gen_case(rng, limits=limits) for _ in range(N)]
     coq_cases, dist = [], {}
